@@ -628,4 +628,11 @@ def c04_k(ctx: Ctx):
     return out
 
 
-RULES = [c04_a, c04_b, c04_c, c04_d, c04_e, c04_f, c04_g, c04_h, c04_i, c04_j, c04_k]
+@rule("C04-l")
+def c04_l(ctx: Ctx):
+    """signac move is Job.move and nothing else (no copy-and-delete fall-back)."""
+    from . import cli
+    return cli.move_delegates(ctx, "C04-l")
+
+
+RULES = [c04_a, c04_b, c04_c, c04_d, c04_e, c04_f, c04_g, c04_h, c04_i, c04_j, c04_k, c04_l]
